@@ -3558,6 +3558,7 @@ class SetInstance(object):
             except:
                 for undo_func in reversed(undo_funcs): undo_func()
                 raise
+        items &= setdata  # one-to-many: the reverse call above has already removed the items and adjusted count and removed
         setdata -= items
         if setdata.count is not None: setdata.count -= len(items)
         added = setdata.added
